@@ -14,6 +14,10 @@ ASSUMPTIONS = ['C and Python operator precedence/associativity as tabulated in s
 
 
 def run(F, rep):
+    # ------------------------------------------------------------------ D2: once per group means remembering every group
+    from engines import rule_last_seen
+    rule_last_seen(F, rep, 'C03.D2', lambda g_: g_.file.endswith(('/generator.cpp', '/analyser.cpp', '/analysermodel.cpp')), 'generator.cpp / analyser.cpp')
+
     # ------------------------------------------------------------------ F: a (re)loaded profile is complete
     rep.rule('C03.F1', 'GeneratorProfileImpl::loadProfile assigns every flag and string of the profile for C and for Python, so that setProfile() yields the same profile whatever the object held before '
                        '(a flag that survives a reload is combined with the reloaded strings, e.g. a power operator with the function name `pow`)')
